@@ -41,6 +41,9 @@ type VirtualMachine struct {
 	os           os.OS
 	modules      map[string]*object.Module
 	inputGlobals map[string]any
+	// globalsGiven is set while a set of options is applied, once one of
+	// them has supplied globals
+	globalsGiven bool
 	globals      map[string]object.Object
 	loadedCode   map[*compiler.Code]*code
 	running      bool
@@ -112,6 +115,7 @@ func (vm *VirtualMachine) applyOptions(options []Option) error {
 	}
 
 	// Apply options
+	vm.globalsGiven = false
 	for _, opt := range options {
 		opt(vm)
 	}
